@@ -1,16 +1,45 @@
 """C18 Source positions survive preprocessing.
 
 Enumerated: every *forest of line items* with exactly n nodes, for the bounds listed in run() and recorded in the evidence
-(`bounds_completed`).  quick: n <= 3 over the full alphabet in five encodings, n = 4 in LF; diagnostics and
-execution for n <= 2, .loc for n <= 3.  thorough: n <= 4 over the full alphabet, n = 5 over MID, n = 6 over REDUCED, a sixth encoding,
-diagnostics, .loc and execution for n <= 3.
-Leaf items: code line with a probe | blank line | `//` comment line | `//` comment continued by backslash-newline | block
-comment over 1/2/3 physical lines with a probe before and after it | logical line spliced with backslash-newline over 2/3
-physical lines with a probe on every physical line | function-like macro definition + invocation spread over 3 lines
-with a probe in every argument and one after the closing parenthesis | object-like macro whose body is a probe, invoked
-on the next line | `#line N` | `#line N "f"` | `# N "f"`.  Inner item: `#include "h<j>.h"` whose header is again a forest
-(<= 3 physical lines, nesting depth <= 2); an include counts 1 + the nodes of its header.  Encodings of a file set:
-{LF, CRLF} x {no BOM, BOM}, LF without a terminator on the last line of every file, and (thorough) alternating CR LF / LF.
+(`bounds_completed`).  Four families of forests / files:
+
+MAIN  quick: n <= 3 over the full alphabet in five encodings, n = 4 in LF; diagnostics and execution for n <= 2, .loc for n <= 3.
+  thorough: n <= 4 over the full alphabet, n = 5 over MID, n = 6 over REDUCED, a sixth encoding, diagnostics, .loc and execution for n <= 3.
+  Leaf items: code line with a probe | blank line | `//` comment line | `//` comment continued by backslash-newline | block
+  comment over 1/2/3 physical lines with a probe before and after it | logical line spliced with backslash-newline over 2/3
+  physical lines with a probe on every physical line | function-like macro definition + invocation spread over 3 lines
+  with a probe in every argument and one after the closing parenthesis | object-like macro whose body is a probe, invoked
+  on the next line | `#line N` | `#line N "f"` | `# N "f"`.  Inner item: `#include "h<j>.h"` whose header is again a forest
+  (<= 3 physical lines, nesting depth <= 2); an include counts 1 + the nodes of its header.  Encodings of a file set:
+  {LF, CRLF} x {no BOM, BOM}, LF without a terminator on the last line of every file, and (thorough) alternating CR LF / LF.
+
+U  text whose length changes before tokenization x backslash-newline x column (alphabet UALPHA + #include):
+  code line | universal character name (UCN) in an identifier / string literal / wide character constant / `//` comment / block comment,
+  each with a probe on the line | spliced logical line over 2/3 lines | splice INSIDE a probe, so that the token whose position
+  is observed is the first token of the continuation line (spa) or ends exactly where the backslash is (spb, a one-character
+  macro for __LINE__) | a UCN immediately before the first of two splices (spu) | a UCN between two splices (spw) | `#line N`.
+  Every forest is rendered in variants (column c at which the text of every continuation line starts, spelling of the UCNs):
+  c in {0,1,2,4,8} x spelling in {\u00e9, \u20ac, \U0001F600, \U000000e9} (the text shrinks by 4, 3, 6, 8 bytes per UCN).
+  quick: n <= 2 x all 20 variants (LF; 5 variants in CRLF), n = 3 x 3 variants; D (lex and parse errors), S for n <= 2, X for n <= 2.
+  thorough: n <= 3 x 20 variants x {LF, CRLF+BOM}, n = 4 x 2 variants; D, S, X for n = 3.
+
+M  __LINE__/__FILE__ in REPLACEMENT LISTS (alphabet MALPHA + #include + arg): function-like macro VPBj(a,b) whose replacement list is
+  `a <probe> b`, invoked with a probe in each argument and one after the closing parenthesis, the invocation written on 1 line
+  (mf1), 2 lines (mf2), 3 lines (mf3: name and `(`, first argument, second argument and `)`), 4 lines (mf4: the name alone on its
+  line) or coming from the replacement list of another function-like macro invoked over 3 lines (mfc3) | object-like macro whose
+  body is a probe | code line | spliced line | `#line N`.  Inner item arg[forest]: `VPOj(` / the children / `) <probe>` where VPOj(x)
+  is `<probe> x`: the children (alphabet MARG, no directives; arg nests to depth 2) are written inside the argument of an enclosing
+  invocation; their #define lines are written before the outermost invocation.  Headers have <= 5 lines.
+  quick: n <= 2 x {LF, CRLF, CRLF+BOM}, n = 3 x LF (E); X for n <= 2.  thorough: n = 4 (E), X for n = 3.
+
+Z  SIZE: long files (main file, or a header included from a three-line main file) in which one kind of structural byte - the CR or the LF of a
+  line terminator, the backslash / the CR / the LF of a backslash-newline, the second byte of a 4-byte UTF-8 character inside a comment
+  or a string literal - is placed by padding a comment at absolute file offset k*B+d.  comb layout: B = 512, EVERY k up to a file size
+  of 2*65536+1024 bytes, i.e. at every multiple of every buffer size in {512, 1024, 4096, 8192, 65536} at once, a probe on every line;
+  single layout: one (B, k) with B in {512, 1024, 4096, 8192, 65536}, k = 1 (thorough: 1..3), preceded by filler lines of irregular
+  length.  d in {-1, 0, +1} (UTF-8: the 2nd byte at -3..+1 = every cut of the character), encodings LF and CRLF (thorough: + BOM, which
+  counts in the offsets).  E for both layouts; D (lex and parse errors at the probes after the multiples of 512, 1024, 4096, 8192,
+  65536, 131072), S and X for the comb layout.
 
 Observables (what each probe must show):
   E  `vpK(__LINE__, __FILE__);` read back from `-cc1 -E` output by re-lexing (models/pplex.py)
@@ -20,38 +49,81 @@ Observables (what each probe must show):
   S  `.loc` record in force at the instruction that mentions symbol vpK, file number resolved through the `.file` table;
      all `.loc` records between two consecutive probes must belong to one of the two statements
 Oracle: models/c18_position.py (physical line = 1 + LFs before the token in the original bytes; C11 6.10.4 presumed line
-and name).  `gcc -E` is the second oracle for E/X: a probe is judged only where model and gcc agree.  For D and S a
+and name; a token that comes from a replacement list has the position of the macro name of the outermost invocation written in
+a source file).  `gcc -E` is the second oracle for E/X: a probe is judged only where model and gcc agree.  For D and S a
 location is accepted if it is the physical (file, line) or the presumed (file, line) pair - gcc uses the latter -
-anything else, including a mixture of the two, is a deviation.
+anything else, including a mixture of the two, is a deviation.  Where a splice is inside a probe, S accepts every line of the statement.
 """
-import functools, os, re, shutil
+import functools, os, re, shutil, sys, time
 from vlib import core
 from models import pplex
 from models import c18_position as M
 
 LEVEL = "exploration"
-BUDGET = {"quick": 900, "thorough": 3000}
+BUDGET = {"quick": 900, "thorough": 6000}
 
 LEAVES = ["code", "blank", "slc", "slcs", "bc1", "bc2", "bc3", "sp2", "sp3", "mac", "macl", "line", "linef", "gnu"]
 REDUCED = ["code", "blank", "bc2", "sp2", "line"]          # alphabet of the deepest thorough bound
 MID = ["code", "blank", "bc2", "sp2", "sp3", "mac", "line", "linef"]   # alphabet of the 5-node bound of the thorough tier
+# family U: text whose length changes before tokenization (universal character names) x backslash-newline x column
+UALPHA = ["code", "ui", "us", "uk", "uc", "ub", "sp2", "sp3", "spa", "spb", "spu", "spw", "line"]
+UCNS = {"u2": "\\u00e9", "u3": "\\u20ac", "U4": "\\U0001F600", "U2": "\\U000000e9"}    # the text shrinks by 4, 3, 6, 8 bytes
+COLS = (0, 1, 2, 4, 8)                                      # column at which the text of a continuation line starts
+VARIANTS_ALL = [(c, u) for c in COLS for u in sorted(UCNS)]
+VARIANTS_PAIRED = [(0, "u2"), (1, "u3"), (2, "U4"), (4, "U2"), (8, "U2")]
+VARIANTS_3 = [(0, "u2"), (2, "U4"), (8, "U2")]
+# family M: __LINE__/__FILE__ in replacement lists; "arg" = inner node: the children are written inside the argument of an invocation
+MALPHA = ["code", "mf1", "mf2", "mf3", "mf4", "mfc3", "macl", "sp2", "line"]
+MARG = ["code", "bc2", "sp2", "mf1", "mf2", "mf3", "mfc3", "macl"]      # no directives inside arguments (C11 6.10.3p11)
+M_HDR_MAX_LINES = 5
 NLINES = {"code": 1, "blank": 1, "slc": 1, "slcs": 2, "bc1": 1, "bc2": 2, "bc3": 3, "sp2": 2, "sp3": 3, "mac": 4, "macl": 2,
-          "line": 1, "linef": 1, "gnu": 1}
+          "line": 1, "linef": 1, "gnu": 1,
+          "ui": 1, "us": 1, "uk": 1, "uc": 1, "ub": 1, "spa": 2, "spb": 2, "spu": 3, "spw": 3,
+          "mf1": 2, "mf2": 3, "mf3": 4, "mf4": 5, "mfc3": 5}
 HDR_MAX_LINES = 3
 MAXPROBE = 48
 ENCS = {"lf": (b"\n", b""), "crlf": (b"\r\n", b""), "lf+bom": (b"\n", M.BOM), "crlf+bom": (b"\r\n", M.BOM),
         "mixed": (None, b""), "lf-noeof": (b"\n", b"")}      # lf-noeof: the last line of every file has no terminator
 ERRKINDS = ("lex", "pp", "parse")
-PRE_H = ("".join("void vp%d(int, char *); " % i for i in range(1, MAXPROBE + 1)) +
-         "\n#define VPA(x) x\nextern int vpsink; void VPFN(void) {\n")
 PRE_H_NAME = "vppre.h"
+# family Z: long files whose structural bytes sit on and around the multiples of plausible I/O buffer sizes
+ZSIZES = (512, 1024, 4096, 8192, 65536)
+ZPERIOD = 512                   # comb layout: one feature every 512 bytes = at every multiple of every size in ZSIZES
+ZTOTAL = 2 * 65536 + 1024       # ... up to this file size
+ZSHIFTS = (-1, 0, 1)            # the feature byte is at k*B-1 (last of a buffer), k*B (first of the next), k*B+1
+ZU8SHIFTS = (-3, -2, -1, 0, 1)  # second byte of a 4-byte UTF-8 character: every way to cut the character in two, and none
+ZFEATURES = {"lf": ("lf", "bs", "spm", "u8c", "u8s"), "crlf": ("cr", "lf", "bs", "spm", "spe", "u8c", "u8s")}
+ZFILL = (61, 83, 47, 97, 71)    # lengths of the filler lines of the single layout
+ZU8 = "\xf0\x9f\x98\x80"
+ZDIAG_AT = (512, 1024, 4096, 8192, 65536, 131072)
+
+
+def pre_h(maxprobe=MAXPROBE):
+    return ("".join("void vp%d(int, char *); " % i for i in range(1, maxprobe + 1)) +
+            "\n#define VPA(x) x\nextern int vpsink; void VPFN(void) {\n")
+
+
+PRE_H = pre_h()
 
 
 # ---------------------------------------------------------------------------------------------------------------
 # enumeration
+def nlines(forest):
+    t = 0
+    for it in forest:
+        if isinstance(it, str):
+            t += NLINES[it]
+        elif it[0] == "inc":
+            t += 1
+        else:
+            t += 3 + nlines(it[1])
+    return t
+
+
 @functools.lru_cache(None)
-def forests(n, depth, maxlines, alphabet):
-    """All forests with exactly n nodes; `maxlines` < 0 = unbounded (main file)."""
+def forests(n, depth, maxlines, alphabet, argalpha=None, argdepth=0, hdrmax=HDR_MAX_LINES):
+    """All forests with exactly n nodes; `maxlines` < 0 = unbounded (main file).  `depth`: #include nesting still allowed;
+    `argalpha`/`argdepth`: alphabet of the children of an "arg" node (None: no such nodes) and nesting still allowed."""
     if n == 0:
         return ((),)
     res = []
@@ -59,54 +131,95 @@ def forests(n, depth, maxlines, alphabet):
         ln = NLINES[leaf]
         if 0 <= maxlines < ln:
             continue
-        for rest in forests(n - 1, depth, maxlines - ln if maxlines >= 0 else -1, alphabet):
+        for rest in forests(n - 1, depth, maxlines - ln if maxlines >= 0 else -1, alphabet, argalpha, argdepth, hdrmax):
             res.append((leaf,) + rest)
     if depth > 0 and (maxlines < 0 or maxlines >= 1):
         for k in range(0, n):
-            for hdr in forests(k, depth - 1, HDR_MAX_LINES, alphabet):
-                for rest in forests(n - 1 - k, depth, maxlines - 1 if maxlines >= 0 else -1, alphabet):
+            for hdr in forests(k, depth - 1, hdrmax, alphabet, argalpha, argdepth, hdrmax):
+                for rest in forests(n - 1 - k, depth, maxlines - 1 if maxlines >= 0 else -1, alphabet, argalpha, argdepth, hdrmax):
                     res.append((("inc", hdr),) + rest)
+    if argalpha and argdepth > 0 and (maxlines < 0 or maxlines >= 3):
+        for k in range(0, n):
+            for ch in forests(k, 0, maxlines - 3 if maxlines >= 0 else -1, argalpha, argalpha, argdepth - 1, hdrmax):
+                ln = 3 + nlines(ch)
+                for rest in forests(n - 1 - k, depth, maxlines - ln if maxlines >= 0 else -1, alphabet, argalpha, argdepth, hdrmax):
+                    res.append((("arg", ch),) + rest)
     return tuple(res)
 
 
-def fstr(forest):
-    return " ".join(x if isinstance(x, str) else "inc[%s]" % fstr(x[1]) for x in forest)
+def fstr(forest, var=None):
+    if forest and forest[0] == "Z":
+        return "long file: %s layout, feature %s at k*B%+d, %s, in the %s%s" % (
+            forest[1], forest[2], forest[3], forest[4], "main file" if forest[5] == "main" else "included header",
+            "" if forest[1] == "comb" else ", B=%d k=%d" % (forest[6], forest[7]))
+    t = " ".join(x if isinstance(x, str) else "%s[%s]" % (x[0], fstr(x[1])) for x in forest)
+    if var:
+        t += " {continuation column %d, UCN %s}" % (var[0], UCNS[var[1]])
+    return t
+
+
+def unpack(case):
+    """case = (n, forest) | (n, forest, variant)"""
+    return (case[0], case[1], case[2] if len(case) > 2 else None)
 
 
 # ---------------------------------------------------------------------------------------------------------------
 # rendering
 class Render:
-    """mode 'E': probes spelled vpK(__LINE__, __FILE__);   'S': vpK(0, 0);   'D': as S, probe `target` erroneous."""
+    """mode 'E': probes spelled vpK(__LINE__, __FILE__);   'S': vpK(0, 0);   'D': as S, probe `target` erroneous.
+    var = (column at which continuation lines start, spelling of the universal character names)."""
 
-    def __init__(self, mode, target=0, errkind=None):
+    def __init__(self, mode, target=0, errkind=None, var=None):
         self.mode, self.target, self.errkind = mode, target, errkind
+        self.col, self.ucn = var if var else (0, "u2")
         self.files = {}
         self.meta = {}
-        self.npid = self.ndir = self.nhdr = self.nmac = 0
+        self.npid = self.ndir = self.nhdr = self.nmac = self.nvar = 0
+        self.needq = False
 
-    def P(self, kind, tail=False):
+    def parts(self, kind, tail=False, **flags):
+        """-> ("vpK(", first argument, ", second argument);")"""
         self.npid += 1
         pid = self.npid
-        self.meta[pid] = {"kind": kind, "tail": tail}
+        m = {"kind": kind, "tail": tail}
+        m.update(flags)
+        self.meta[pid] = m
         if self.mode == "E":
-            return "vp%d(__LINE__, __FILE__);" % pid
+            return "vp%d(" % pid, "__LINE__", ", __FILE__);"
         if self.mode == "D" and pid == self.target:
-            if self.errkind == "lex":
-                return "vp%d(\x01 vperr%d, 0);" % (pid, pid)
-            if self.errkind == "pp":
-                return "vp%d(VPA(vperr%d, 2), 0);" % (pid, pid)
-            return "vp%d(vperr%d, 0);" % (pid, pid)
-        return "vp%d(0, 0);" % pid
+            return "vp%d(" % pid, {"lex": "\x01 vperr%d", "pp": "VPA(vperr%d, 2)", "parse": "vperr%d"}[self.errkind] % pid, ", 0);"
+        return "vp%d(" % pid, "0", ", 0);"
+
+    def P(self, kind, tail=False, **flags):
+        return "".join(self.parts(kind, tail, **flags))
 
     def file(self, name, forest):
         lines = []
         self.files[name] = lines
+        self.emit(forest, lines, None)
+
+    def emit(self, forest, lines, sink):
+        """sink: None = #define lines are written where the item is; a list = the item is inside the arguments of an invocation and its
+        #define lines are collected there (they are written before the outermost invocation)."""
+        pad = " " * self.col
+        U = UCNS[self.ucn]
+        defs = lines if sink is None else sink
         for it in forest:
-            if not isinstance(it, str):
+            if not isinstance(it, str) and it[0] == "inc":
                 self.nhdr += 1
                 h = "h%d.h" % self.nhdr
                 lines.append('#include "%s"' % h)
                 self.file(h, it[1])
+            elif not isinstance(it, str) and it[0] == "arg":
+                self.nmac += 1
+                j = self.nmac
+                inner = []
+                mydefs = [] if sink is None else sink
+                self.emit(it[1], inner, mydefs)
+                mydefs.append("#define VPO%d(x) %s x" % (j, self.P("macro-body", multi=True)))
+                if sink is None:
+                    lines += mydefs
+                lines += ["VPO%d(" % j] + inner + [") " + self.P("after-macro")]
             elif it == "code":
                 lines.append(self.P("code"))
             elif it == "blank":
@@ -122,33 +235,182 @@ class Render:
             elif it == "bc3":
                 lines += [self.P("block-comment") + " /* c", "vp0(0, 0);", "c */ " + self.P("block-comment")]
             elif it == "sp2":
-                lines += [self.P("spliced-head") + " \\", self.P("spliced-line", True)]
+                lines += [self.P("spliced-head") + " \\", pad + self.P("spliced-line", True)]
             elif it == "sp3":
-                lines += [self.P("spliced-head") + " \\", self.P("spliced-line", True) + " \\", self.P("spliced-line", True)]
+                lines += [self.P("spliced-head") + " \\", pad + self.P("spliced-line", True) + " \\", pad + self.P("spliced-line", True)]
+            elif it == "spa":       # the splice is inside the probe: its first argument is the first token of the continuation line
+                a, b, c = self.parts("spliced-probe", True)
+                lines += [a + "\\", pad + b + c]
+            elif it == "spb":       # the first argument of the probe (a one-character macro for __LINE__) ends where the splice is
+                a, b, c = self.parts("token-before-splice")
+                self.needq = True
+                lines += [a + ("Q" if self.mode == "E" else b) + "\\", pad + c]
+            elif it == "spu":       # a universal character name just before the first splice of a logical line with two splices
+                head = self.P("spliced-head")
+                a, b, c = self.parts("spliced-probe", True)
+                lines += [head + ' (void)"x%s";\\' % U, pad + a + "\\", pad + b + c]
+            elif it == "spw":       # a universal character name between two splices
+                head = self.P("spliced-head")
+                a, b, c = self.parts("spliced-probe", True)
+                lines += [head + " \\", '(void)"%s"; ' % U + a + "\\", pad + b + c]
+            elif it == "ui":
+                self.nvar += 1
+                lines.append("int vq%d_%sx; " % (self.nvar, U) + self.P("code"))
+            elif it == "us":
+                lines.append('(void)"%s"; ' % U + self.P("code"))
+            elif it == "uk":
+                lines.append("(void)L'%s'; " % U + self.P("code"))
+            elif it == "uc":
+                lines.append(self.P("code") + " // c %s c" % U)
+            elif it == "ub":
+                lines.append("/* %s */ " % U + self.P("code"))
             elif it == "mac":
                 lines += ["#define VPM(a,b,c) a b c", "VPM(" + self.P("macro-args") + ",", "  " + self.P("macro-args") + ",",
                           "  " + self.P("macro-args") + ") " + self.P("after-macro")]
             elif it == "macl":
                 self.nmac += 1
-                if self.mode == "E":
-                    lines += ["#define VPL%d %s" % (self.nmac, self.P("macro-body")), "VPL%d" % self.nmac]
+                if self.mode == "E" or sink is not None or self.family_m:
+                    defs.append("#define VPL%d %s" % (self.nmac, self.P("macro-body")))
+                    lines.append("VPL%d" % self.nmac)
                 else:
                     lines += ["#define VPL%d" % self.nmac, "VPL%d %s" % (self.nmac, self.P("after-macro"))]
+            elif it in ("mf1", "mf2", "mf3", "mf4", "mfc3"):
+                # function-like macro with a probe in its replacement list, a probe in each argument and one after the invocation
+                self.nmac += 1
+                j = self.nmac
+                multi = it != "mf1"
+                defs.append("#define VPB%d(a,b) a %s b" % (j, self.P("macro-body", multi=multi)))
+                A, B, T = self.P("macro-args"), self.P("macro-args"), self.P("after-macro")
+                if it == "mf1":
+                    lines.append("VPB%d(%s, %s) %s" % (j, A, B, T))
+                elif it == "mf2":
+                    lines += ["VPB%d(%s," % (j, A), "  %s) %s" % (B, T)]
+                elif it == "mf3":
+                    lines += ["VPB%d(" % j, "  %s," % A, "  %s) %s" % (B, T)]
+                elif it == "mf4":
+                    lines += ["VPB%d" % j, "  (%s," % A, "  %s" % B, "  ) %s" % T]
+                else:       # the invocation of VPB comes from the replacement list of VPC
+                    defs.append("#define VPC%d(x,y) VPB%d(y, x)" % (j, j))
+                    lines += ["VPC%d(" % j, "  %s," % A, "  %s) %s" % (B, T)]
             elif it in ("line", "linef", "gnu"):
                 self.ndir += 1
                 n = 100 * self.ndir + 11
                 lines.append({"line": "#line %d" % n, "linef": '#line %d "vpf%d.c"' % (n, self.ndir),
                               "gnu": '# %d "vpg%d.c"' % (n, self.ndir)}[it])
             else:
-                raise core.HarnessError("unknown item " + it)
+                raise core.HarnessError("unknown item " + str(it))
+
+    family_m = False
 
 
-def render(forest, mode, target=0, errkind=None):
-    r = Render(mode, target, errkind)
+def is_family_m(forest):
+    for it in forest:
+        if isinstance(it, str):
+            if it.startswith("mf"):
+                return True
+        elif it[0] == "arg" or is_family_m(it[1]):
+            return True
+    return False
+
+
+def render(forest, mode, target=0, errkind=None, var=None):
+    if forest and forest[0] == "Z":
+        return zrender(forest, mode, target, errkind)
+    r = Render(mode, target, errkind, var)
+    r.family_m = is_family_m(forest)
     r.file("t.c", forest)
     r.files["t.c"].append("}")
+    if r.needq:     # one-character spelling of __LINE__ (written in every mode so that the line structure is the same)
+        r.files["t.c"].insert(0, "#define Q __LINE__")
     if r.npid > MAXPROBE:
         raise core.HarnessError("too many probes")
+    r.maxprobe = MAXPROBE
+    return r
+
+
+def zspecs(layouts, encs, wheres, ks):
+    out = []
+    for enc in encs:
+        for T in ZFEATURES["crlf" if enc.startswith("crlf") else "lf"]:
+            for d in (ZU8SHIFTS if T.startswith("u8") else ZSHIFTS):
+                for where in wheres:
+                    if "comb" in layouts:
+                        out.append(("Z", "comb", T, d, enc, where, ZPERIOD, 0))
+                    if "single" in layouts:
+                        for B in ZSIZES:
+                            for k in ks:
+                                out.append(("Z", "single", T, d, enc, where, B, k))
+    return out
+
+
+def zrender(spec, mode, target=0, errkind=None):
+    """Family Z.  The feature byte T (cr/lf: of a line terminator; bs/spm/spe: first, second, third byte of a backslash-newline; u8c/u8s:
+    second byte of a 4-byte UTF-8 character in a comment / string literal) is put at absolute file offset k*B+d by padding a comment.
+    comb: for every k with B = ZPERIOD up to ZTOTAL, a probe on every line; single: for one (B, k), the lines before it are fillers of
+    irregular length."""
+    _, layout, T, d, enc, where, B, k = spec
+    r = Render(mode, target, errkind)
+    eol = b"\r\n" if enc.startswith("crlf") else b"\n"
+    le = len(eol)
+    if T in ("cr", "spe") and le != 2:
+        raise core.HarnessError("feature needs CR LF")
+    first = r.P("code") if where != "main" else None
+    buf = bytearray(M.BOM if enc.endswith("+bom") else b"")
+    targets = [i * ZPERIOD + d for i in range(1, ZTOTAL // ZPERIOD + 1)] if layout == "comb" else [k * B + d]
+    after = {}
+
+    def line(text):
+        buf.extend(text.encode("latin-1") + eol)
+    line(r.P("long-file"))
+    nfill = 0
+    for tg in targets:
+        while tg - len(buf) > 900:
+            L = ZFILL[nfill % len(ZFILL)]
+            nfill += 1
+            line("/*" + "f" * (L - 4 - le) + "*/")
+        head = r.P("long-file")
+        after[tg - d] = [r.npid, r.npid + 1]
+        pos, h = len(buf), len(head)
+        if T == "lf":
+            pad = tg - (pos + h + 5 + le - 1)
+            text = head + " /*" + "p" * pad + "*/"
+        elif T == "cr":
+            pad = tg - (pos + h + 5)
+            text = head + " /*" + "p" * pad + "*/"
+        elif T in ("bs", "spm", "spe"):
+            pad = tg - {"bs": 0, "spm": 1, "spe": 2}[T] - (pos + h + 6)
+            text = head + " /*" + "p" * pad + "*/ \\"
+        elif T == "u8c":
+            pad = tg - (pos + h + 4)
+            text = head + " /*" + "p" * pad + ZU8 + " c*/"
+        elif T == "u8s":
+            pad = tg - (pos + h + 9)
+            text = head + ' (void)"' + "p" * pad + ZU8 + '";'
+        else:
+            raise core.HarnessError("unknown feature " + T)
+        if pad < 0:
+            raise core.HarnessError("no room for the padding: %r" % (spec,))
+        line(text)
+        if T in ("bs", "spm", "spe"):
+            line(r.P("long-file-spliced-line", True))
+        want = {"lf": b"\n", "cr": b"\r", "bs": b"\\", "spm": eol[:1], "spe": b"\n", "u8c": b"\x9f", "u8s": b"\x9f"}[T]
+        if bytes(buf[tg:tg + 1]) != want:
+            raise core.HarnessError("feature byte misplaced: %r" % (spec,))
+    line(r.P("long-file"))
+    line(r.P("long-file"))
+    if where == "main":
+        line("}")
+        r.raw = {"t.c": bytes(buf)}
+    else:
+        last = r.P("code")
+        r.raw = {"t.c": b"".join(x.encode("latin-1") + eol for x in (first, '#include "h1.h"', last, "}")), "h1.h": bytes(buf)}
+    r.files = None
+    r.maxprobe = r.npid
+    # probes at which diagnostics are provoked: around the boundaries of every buffer size (comb), around the one boundary (single)
+    if layout == "single":
+        r.dtargets = sorted(set(p for x in after for p in after[x]) | {1, r.npid})
+    else:
+        r.dtargets = sorted(set(after[x][1] for x in ZDIAG_AT if x in after) | {1, r.npid})
     return r
 
 
@@ -161,6 +423,8 @@ def encode(lines, enc):
 
 
 def encode_all(r, enc):
+    if r.files is None:      # family Z: the layout is part of the case (pseudo-encoding "z")
+        return dict(r.raw)
     return {name: encode(lines, enc) for name, lines in r.files.items()}
 
 
@@ -174,7 +438,7 @@ def write_files(d, files):
 def construct(meta, info):
     if info["directive"]:
         return "spliced-line+after-#line" if meta["tail"] else "after-#line"
-    return meta["kind"]
+    return meta["kind"] + ("+after-ucn" if info.get("ucn") else "")
 
 
 def file_class(obs, info):
@@ -188,6 +452,16 @@ def file_class(obs, info):
     if o == "t.c":
         return "main-file"
     return "other-file"
+
+
+def family_counts(acc, obs, meta, info):
+    """vacuity guards of the added dimensions: how many judged probes exercise them"""
+    if info.get("ucn") and (meta["tail"] or meta["kind"] == "token-before-splice"):
+        acc.count("judged_%s_splice_after_ucn" % obs)
+    if meta["kind"] == "macro-body" and meta.get("multi"):
+        acc.count("judged_%s_body_of_multiline_invocation" % obs)
+    if meta["kind"].startswith("long-file"):
+        acc.count("judged_%s_long_file" % obs)
 
 
 class Acc:
@@ -268,9 +542,10 @@ def _shard_E(args):
     sup = None
     prepared = []
     gcc_entries = []
-    for ci, (n, forest) in enumerate(cases):
-        r = render(forest, "E")
-        encs = encs_small if n <= small_n else encs_big
+    for ci, case in enumerate(cases):
+        n, forest, var = unpack(case)
+        r = render(forest, "E", var=var)
+        encs = ["z"] if r.files is None else encs_small if n <= small_n else encs_big
         exp0 = None
         for enc in encs:
             files = encode_all(r, enc)
@@ -279,20 +554,21 @@ def _shard_E(args):
             if exp0 is None:
                 exp0 = sig_exp
             elif exp0 != sig_exp:
-                raise core.HarnessError("model depends on the encoding: %s %s" % (fstr(forest), enc))
+                raise core.HarnessError("model depends on the encoding: %s %s" % (fstr(forest, var), enc))
             if sorted(p for p, i in exp) != list(range(1, r.npid + 1)):
-                raise core.HarnessError("model lost a probe: %s" % fstr(forest))
+                raise core.HarnessError("model lost a probe: %s" % fstr(forest, var))
             d = "c%d_%s" % (ci, enc.replace("+", ""))
             write_files(os.path.join(wd, d), files)
             prepared.append((ci, enc, d, r, files, exp))
-            if enc in gcc_encs or n <= small_n:
+            if enc in gcc_encs or n <= small_n or enc == "z":
                 gcc_entries.append(((ci, enc), d))
     gcc = gcc_E(wd, gcc_entries) if gcc_entries else {}
     if gcc is None:
         acc.count("ref_rejected", len(gcc_entries))
         gcc = {}
     for ci, enc, d, r, files, exp in prepared:
-        n, forest = cases[ci]
+        n, forest, var = unpack(cases[ci])
+        fs_ = fstr(forest, var)
         cd = os.path.join(wd, d)
         st, out, err = core.run_limited([chibicc, "-cc1", "-E", "-cc1-input", "t.c", "t.c"], cwd=cd, timeout=120)
         acc.count("runs_E")
@@ -304,13 +580,13 @@ def _shard_E(args):
             g = gcc.get((ci, "lf"))
         if st != 0:
             acc.deviation("C18|-E|valid-file-%s" % ("killed" if isinstance(st, int) and st < 0 else "rejected"),
-                          "[%s] %s: -E fails (status %s): %s" % (fstr(forest), enc, st, err.strip().splitlines()[:1]),
+                          "[%s] %s: -E fails (status %s): %s" % (fs_, enc, st, err.strip().splitlines()[:1]),
                           dict(files), "$CHIBICC -cc1 -E -cc1-input t.c t.c >/dev/null 2>&1 && exit 0; exit 1")
             continue
         obs = M.observe_E(pplex.lex(out))
         if [p for p, l, f in obs] != [p for p, i in exp]:
             acc.deviation("C18|-E|probe-sequence-differs", "[%s] %s: probes in -E output %s, expected %s"
-                          % (fstr(forest), enc, [p for p, l, f in obs], [p for p, i in exp]), dict(files),
+                          % (fs_, enc, [p for p, l, f in obs], [p for p, i in exp]), dict(files),
                           "$CHIBICC -cc1 -E -cc1-input t.c t.c > out.txt 2>/dev/null || exit 1\n"
                           "python3 -c \"import pplex,c18_position as M,sys; got=[p for p,l,f in M.observe_E(pplex.lex(open('out.txt').read()))]; "
                           "sys.exit(0 if got==%r else 1)\"" % [p for p, i in exp])
@@ -326,6 +602,7 @@ def _shard_E(args):
                 acc.count("skipped_unspecified" if meta["kind"] in ("macro-args", "macro-body") else "oracle_disagreements")
                 continue
             acc.count("judged_E")
+            family_counts(acc, "E", meta, info)
             acc.kinds.add((construct(meta, info), enc))
             nontrivial = info["pres"] != 1
             if nontrivial:
@@ -336,7 +613,7 @@ def _shard_E(args):
                 fs = dict(files); fs.update(sup)
                 acc.deviation("C18|%s|__LINE__|observed=%s" % (construct(meta, info), M.line_class(line, info)),
                               "[%s] %s: probe vp%d (%s, physical line %d of %s) has __LINE__ == %s in -E output; C11/gcc: %d"
-                              % (fstr(forest), enc, pid, meta["kind"], info["phys"], info["file"], line, info["pres"]), fs,
+                              % (fs_, enc, pid, meta["kind"], info["phys"], info["file"], line, info["pres"]), fs,
                               "$CHIBICC -cc1 -E -cc1-input t.c t.c > out.txt 2>/dev/null || exit 0\n"
                               "python3 c18_position.py E out.txt %d '%s'" % (pid, spec([(info["presfile"], info["pres"])])))
             if fn is None or M.norm(fn) != want[1]:
@@ -346,7 +623,7 @@ def _shard_E(args):
                 acc.deviation("C18|%s|__FILE__|observed=%s" % (construct(meta, info) + ("" if info["file"] == "t.c" else "+in-header"),
                                                                file_class(fn, info)),
                               "[%s] %s: probe vp%d in %s has __FILE__ == %r in -E output; C11/gcc: %r"
-                              % (fstr(forest), enc, pid, info["file"], fn, info["presfile"]), fs,
+                              % (fs_, enc, pid, info["file"], fn, info["presfile"]), fs,
                               "$CHIBICC -cc1 -E -cc1-input t.c t.c > out.txt 2>/dev/null || exit 0\n"
                               "python3 c18_position.py E out.txt %d '%s' | grep -q \"observed ('%s'\" && exit 0; exit 1"
                               % (pid, spec([(info["presfile"], info["pres"])]), M.norm(info["presfile"])))
@@ -356,8 +633,12 @@ def _shard_E(args):
 
 # ---------------------------------------------------------------------------------------------------------------
 # helpers shared by the compiling modes
-def acceptable(info):
-    return {(M.norm(info["file"]), info["phys"]), (M.norm(info["presfile"]), info["pres"])}
+def acceptable(info, span=False):
+    """physical or presumed position of the token; span: of any line of the probe statement (one line unless a splice is inside it)"""
+    out = set()
+    for d in (range(info.get("lo", 0), info.get("hi", 0) + 1) if span else (0,)):
+        out |= {(M.norm(info["file"]), info["phys"] + d), (M.norm(info["presfile"]), info["pres"] + d)}
+    return out
 
 
 def position_class(fn, line, info):
@@ -385,16 +666,22 @@ def _shard_D(args):
     chibicc, wd, sidx, cases, encs_small, encs_big, small_n, kinds_small, kinds_big = args
     acc = Acc()
     sup = support_files()
-    for ci, (n, forest) in enumerate(cases):
-        nprobes = render(forest, "S").npid
-        for enc in (encs_small if n <= small_n else encs_big):
+    for ci, case in enumerate(cases):
+        n, forest, var = unpack(case)
+        r0 = render(forest, "S", var=var)
+        big = r0.files is None
+        exp0 = dict(M.expected(encode_all(r0, "z"))) if big else None     # same lines as the erroneous renderings: modelled once
+        for enc in (["z"] if big else encs_small if n <= small_n else encs_big):
             for kind in (kinds_small if n <= small_n else kinds_big):
-                for target in range(1, nprobes + 1):
-                    r = render(forest, "D", target, kind)
+                for target in (r0.dtargets if big else range(1, r0.npid + 1)):
+                    r = render(forest, "D", target, kind, var=var)
                     files = encode_all(r, enc)
-                    files[PRE_H_NAME] = PRE_H.encode()
-                    exp = dict(M.expected(files))
+                    files[PRE_H_NAME] = pre_h(r.maxprobe).encode()
+                    exp = exp0 or dict(M.expected(files))
                     info, meta = exp[target], r.meta[target]
+                    if meta["kind"] == "macro-body":
+                        # a diagnostic about a token of a replacement list may name the definition or the invocation -> not judged
+                        acc.count("skipped_unspecified"); continue
                     if kind == "pp" and meta["kind"] == "macro-args":
                         # where inside an enclosing multi-line invocation a preprocessing error is reported is the implementation's
                         # choice (gcc: the closing parenthesis of the outer invocation; the model: the token) -> not judged
@@ -423,11 +710,12 @@ def _shard_D(args):
                     fn, line, echo = d
                     fn = M.norm(fn, wd)
                     acc.count("judged_D")
+                    family_counts(acc, "D", meta, info)
                     acc.kinds.add((construct(meta, info), kind, enc))
                     if info["phys"] != 1:
                         acc.count("nontrivial_D")
                     where = "[%s] %s: %s error at probe vp%d (%s, physical line %d of %s%s)" % (
-                        fstr(forest), enc, kind, target, meta["kind"], info["phys"], info["file"],
+                        fstr(forest, var), enc, kind, target, meta["kind"], info["phys"], info["file"],
                         ", presumed %s:%d" % (info["presfile"], info["pres"]) if info["directive"] else "")
                     if (M.norm(fn), line) not in acceptable(info):
                         fs = dict(files); fs.update(sup)
@@ -461,19 +749,20 @@ def judge_S(acc, asm, r, files, exp, forest, enc, sup, cd):
             acc.count("unmodelled_S"); continue
         fno, line = m
         acc.count("judged_S")
+        family_counts(acc, "S", meta, info)
         acc.kinds.add((construct(meta, info), ".loc", enc))
         if info["phys"] != 1:
             acc.count("nontrivial_S")
         where = "[%s] %s: statement vp%d (%s, physical line %d of %s%s)" % (
-            fstr(forest), enc, pid, meta["kind"], info["phys"], info["file"],
+            forest, enc, pid, meta["kind"], info["phys"], info["file"],
             ", presumed %s:%d" % (info["presfile"], info["pres"]) if info["directive"] else "")
-        rp = cc1_cmd() + " -cc1-output t.s t.c || exit 0\npython3 c18_position.py S t.s %d '%s'" % (pid, spec(acceptable(info)))
+        rp = cc1_cmd() + " -cc1-output t.s t.c || exit 0\npython3 c18_position.py S t.s %d '%s'" % (pid, spec(acceptable(info, True)))
         if fno not in table:
             acc.deviation("C18|.file-table|.loc|observed=file-number-without-.file-entry", "%s: .loc %d %d but no .file %d" % (where, fno, line, fno),
                           fs_all(files, sup), rp)
             continue
         fn = table[fno]
-        if (M.norm(fn), line) not in acceptable(info):
+        if (M.norm(fn), line) not in acceptable(info, True):
             acc.deviation("C18|%s|.loc|observed=%s" % (construct(meta, info), position_class(fn, line, info)),
                           "%s is covered by `.loc %d %d` = %s:%d" % (where, fno, line, fn, line), fs_all(files, sup), rp)
     # every record between two probes belongs to one of them
@@ -482,14 +771,14 @@ def judge_S(acc, asm, r, files, exp, forest, enc, sup, cd):
         if a == 0 or b == 0 or a not in exp_d or b not in exp_d:
             continue
         fn = M.norm(table.get(fno, "?"))
-        ok = acceptable(exp_d[a]) | acceptable(exp_d[b])
+        ok = acceptable(exp_d[a], True) | acceptable(exp_d[b], True)
         acc.count("loc_records_checked")
         if (fn, line) not in ok:
             bad.add((a, b, fn, line))
             info, meta = exp_d[b], r.meta[b]
             acc.deviation("C18|%s|.loc-between-statements|observed=%s" % (construct(meta, info), position_class(fn, line, info)),
                           "[%s] %s: `.loc %d %d` (%s:%d) appears between the instructions of vp%d and vp%d, whose statements are at %s"
-                          % (fstr(forest), enc, fno, line, fn, line, a, b, sorted(ok)), fs_all(files, sup),
+                          % (forest, enc, fno, line, fn, line, a, b, sorted(ok)), fs_all(files, sup),
                           cc1_cmd() + " -cc1-output t.s t.c || exit 0\npython3 c18_position.py R t.s %d-%d '%s'" % (a, b, spec(ok)))
     return bad
 
@@ -509,16 +798,16 @@ def judge_S_builtin(acc, asm, asm_plain, r, files, exp, forest, enc, sup, cd):
             if r.meta[a]["kind"] == "macro-body" or r.meta[b]["kind"] == "macro-body":
                 continue
             fn = M.norm(table.get(fno, "?"))
-            if (fn, line) not in acceptable(exp_d[a]) | acceptable(exp_d[b]):
+            if (fn, line) not in acceptable(exp_d[a], True) | acceptable(exp_d[b], True):
                 out.add((a, b, fn, line))
         return out
     extra = unacceptable(asm) - unacceptable(asm_plain)
     acc.count("builtin_token_units_checked")
     for a, b, fn, line in sorted(extra):
-        ok = acceptable(exp_d[a]) | acceptable(exp_d[b])
+        ok = acceptable(exp_d[a], True) | acceptable(exp_d[b], True)
         acc.deviation("C18|__LINE__/__FILE__-token|.loc-between-statements|observed=%s" % ("line-1" if line == 1 else "other-line"),
                       "[%s] %s: with vpK(__LINE__, __FILE__) instead of vpK(0, 0) a record for %s:%d appears between the instructions of vp%d and vp%d, "
-                      "whose statements are at %s" % (fstr(forest), enc, fn, line, a, b, sorted(ok)), fs_all(files, sup),
+                      "whose statements are at %s" % (forest, enc, fn, line, a, b, sorted(ok)), fs_all(files, sup),
                       cc1_cmd() + " -cc1-output t.s t.c || exit 0\npython3 c18_position.py R t.s %d-%d '%s'" % (a, b, spec(ok)))
 
 
@@ -526,11 +815,12 @@ def _shard_S(args):
     chibicc, wd, sidx, cases, encs = args
     acc = Acc()
     sup = support_files()
-    for ci, (n, forest) in enumerate(cases):
-        r = render(forest, "S")
-        for enc in encs:
+    for ci, case in enumerate(cases):
+        n, forest, var = unpack(case)
+        r = render(forest, "S", var=var)
+        for enc in (["z"] if r.files is None else encs):
             files = encode_all(r, enc)
-            files[PRE_H_NAME] = PRE_H.encode()
+            files[PRE_H_NAME] = pre_h(r.maxprobe).encode()
             exp = M.expected(files)
             shutil.rmtree(wd, ignore_errors=True)
             write_files(wd, files)
@@ -540,10 +830,10 @@ def _shard_S(args):
                 acc.count("timeouts"); continue
             if st != 0:
                 acc.deviation("C18|-S|valid-file-%s" % ("killed" if isinstance(st, int) and st < 0 else "rejected"),
-                              "[%s] %s: compilation fails (status %s): %s" % (fstr(forest), enc, st, err.strip().splitlines()[:1]),
+                              "[%s] %s: compilation fails (status %s): %s" % (fstr(forest, var), enc, st, err.strip().splitlines()[:1]),
                               dict(files), cc1_cmd() + " -cc1-output t.s t.c >/dev/null 2>&1 && exit 0; exit 1")
                 continue
-            judge_S(acc, open(os.path.join(wd, "t.s"), errors="replace").read(), r, files, exp, forest, enc, sup, wd)
+            judge_S(acc, open(os.path.join(wd, "t.s"), errors="replace").read(), r, files, exp, fstr(forest, var), enc, sup, wd)
     shutil.rmtree(wd, ignore_errors=True)
     return acc.result()
 
@@ -557,12 +847,15 @@ def _shard_X(args):
     os.makedirs(wd, exist_ok=True)
     units = []
     gcc_entries = []
-    for ci, (n, forest) in enumerate(cases):
-        r = render(forest, "E")
-        for enc in encs:
+    maxprobe = MAXPROBE
+    for ci, case in enumerate(cases):
+        n, forest, var = unpack(case)
+        r = render(forest, "E", var=var)
+        maxprobe = max(maxprobe, r.maxprobe)
+        for enc in (["z"] if r.files is None else encs):
             files = encode_all(r, enc)
             exp = M.expected(files)
-            files[PRE_H_NAME] = PRE_H.encode()
+            files[PRE_H_NAME] = pre_h(r.maxprobe).encode()
             d = "x%d_%s" % (ci, enc.replace("+", ""))
             cd = os.path.join(wd, d)
             write_files(cd, files)
@@ -575,32 +868,32 @@ def _shard_X(args):
                 acc.count("timeouts"); continue
             if st != 0:
                 acc.deviation("C18|-S|valid-file-%s" % ("killed" if isinstance(st, int) and st < 0 else "rejected"),
-                              "[%s] %s: compilation fails (status %s): %s" % (fstr(forest), enc, st, err.strip().splitlines()[:1]),
+                              "[%s] %s: compilation fails (status %s): %s" % (fstr(forest, var), enc, st, err.strip().splitlines()[:1]),
                               dict(files), cc1_cmd() + " -cc1-output t.s t.c >/dev/null 2>&1 && exit 0; exit 1")
                 continue
-            rs = render(forest, "S")
+            rs = render(forest, "S", var=var)
             pd = os.path.join(wd, "plain")
             shutil.rmtree(pd, ignore_errors=True)
-            pf = encode_all(rs, enc); pf[PRE_H_NAME] = PRE_H.encode()
+            pf = encode_all(rs, enc); pf[PRE_H_NAME] = pre_h(r.maxprobe).encode()
             write_files(pd, pf)
             st2, o2, e2 = core.run_limited(compile_args(chibicc, "t.s"), cwd=pd, timeout=120)
             if st2 == 0 and [p for p, i in M.expected(pf)] == [p for p, i in exp]:
                 judge_S_builtin(acc, open(os.path.join(cd, "t.s"), errors="replace").read(), open(os.path.join(pd, "t.s"), errors="replace").read(),
-                                r, files, exp, forest, enc, sup, cd)
+                                r, files, exp, fstr(forest, var), enc, sup, cd)
             st, out, err = core.run_limited(["as", "-o", os.path.join(wd, fnname + ".o"), "t.s"], cwd=cd, timeout=300)
             if st != 0:
                 if re.search(r"\.loc|\.file|file number|line number", err):
-                    acc.deviation("C18|.file-table|assembler-rejects-line-records", "[%s] %s: as: %s" % (fstr(forest), enc, err.strip().splitlines()[:2]),
+                    acc.deviation("C18|.file-table|assembler-rejects-line-records", "[%s] %s: as: %s" % (fstr(forest, var), enc, err.strip().splitlines()[:2]),
                                   fs_all(files, sup), cc1_cmd() + " -cc1-output t.s t.c || exit 0\nas -o t.o t.s 2>/dev/null && exit 0; exit 1")
                 else:
                     acc.count("as_failed")
                 continue
-            units.append((fnname, ci, enc, r, files, exp, forest))
+            units.append((fnname, ci, enc, r, files, exp, fstr(forest, var)))
     gcc = gcc_E(wd, gcc_entries) or {}
     if not units:
         return acc.result()
     drv = ["#include <stdio.h>", "static int cur;"]
-    drv += ["void vp%d(int l, char *f) { printf(\"%%d %d %%d %%s\\n\", cur, l, f); }" % (i, i) for i in range(1, MAXPROBE + 1)]
+    drv += ["void vp%d(int l, char *f) { printf(\"%%d %d %%d %%s\\n\", cur, l, f); }" % (i, i) for i in range(1, maxprobe + 1)]
     drv += ["int vpsink;"] + ["void %s(void);" % u[0] for u in units]
     drv += ["int main(void) {"] + ["  cur = %d; %s();" % (k, u[0]) for k, u in enumerate(units)] + ["  return 0; }"]
     with open(os.path.join(wd, "drv.c"), "w") as f:
@@ -622,7 +915,7 @@ def _shard_X(args):
         g = gcc.get((ci, enc))
         if [p for p, l, f in obs] != [p for p, i in exp]:
             acc.deviation("C18|run|probe-sequence-differs", "[%s] %s: executed probes %s, expected %s"
-                          % (fstr(forest), enc, [p for p, l, f in obs], [p for p, i in exp]), dict(files), None)
+                          % (forest, enc, [p for p, l, f in obs], [p for p, i in exp]), dict(files), None)
             continue
         for (pid, line, fn), (_, info) in zip(obs, exp):
             meta = r.meta[pid]
@@ -632,21 +925,22 @@ def _shard_X(args):
                 acc.count("skipped_unspecified" if meta["kind"] in ("macro-args", "macro-body") else "oracle_disagreements")
                 continue
             acc.count("judged_X")
+            family_counts(acc, "X", meta, info)
             acc.kinds.add((construct(meta, info), "run", enc))
             fs = dict(files); fs.update(sup)
             fs["drv.c"] = ("#include <stdio.h>\n" + "".join("void vp%d(int l, char *f) { printf(\"%d %%d %%s\\n\", l, f); }\n" % (i, i)
-                                                             for i in range(1, MAXPROBE + 1)) + "int vpsink; void vpfn(void); int main(void) { vpfn(); return 0; }\n")
+                                                             for i in range(1, r.maxprobe + 1)) + "int vpsink; void vpfn(void); int main(void) { vpfn(); return 0; }\n")
             rp = (cc1_cmd() + " -cc1-output t.s t.c || exit 0\nas -o t.o t.s && gcc -o drv drv.c t.o || exit 0\n./drv > run.txt || exit 0\n"
                   "python3 c18_position.py X run.txt %d '%s'" % (pid, spec([(info["presfile"], info["pres"])])))
             if line != info["pres"]:
                 acc.deviation("C18|%s|run:__LINE__|observed=%s" % (construct(meta, info), M.line_class(line, info)),
                               "[%s] %s: probe vp%d (%s, physical line %d of %s) receives __LINE__ == %d at run time; C11/gcc: %d"
-                              % (fstr(forest), enc, pid, meta["kind"], info["phys"], info["file"], line, info["pres"]), fs, rp)
+                              % (forest, enc, pid, meta["kind"], info["phys"], info["file"], line, info["pres"]), fs, rp)
             if M.norm(fn) != want[1]:
                 acc.deviation("C18|%s|run:__FILE__|observed=%s" % (construct(meta, info) + ("" if info["file"] == "t.c" else "+in-header"),
                                                                    file_class(fn, info)),
                               "[%s] %s: probe vp%d in %s receives __FILE__ == %r at run time; C11/gcc: %r"
-                              % (fstr(forest), enc, pid, info["file"], fn, info["presfile"]), fs,
+                              % (forest, enc, pid, info["file"], fn, info["presfile"]), fs,
                               rp + " | grep -q \"observed ('%s'\" && exit 0; exit 1" % M.norm(info["presfile"]))
     shutil.rmtree(wd, ignore_errors=True)
     return acc.result()
@@ -658,6 +952,20 @@ def cases_upto(nmax, alphabet=None, nmin=1):
     out = []
     for n in range(nmin, nmax + 1):
         out += [(n, f) for f in forests(n, 2, -1, alpha)]
+    return out
+
+
+def family_cases(nmin, nmax, family, variants=(None,)):
+    """family U: UALPHA, every forest in every (column, UCN spelling) variant given; family M: MALPHA with "arg" nodes"""
+    out = []
+    for n in range(nmin, nmax + 1):
+        if family == "U":
+            fs = forests(n, 2, -1, tuple(UALPHA))
+        else:
+            fs = forests(n, 2, -1, tuple(MALPHA), tuple(MARG), 2, M_HDR_MAX_LINES)
+        for f in fs:
+            for v in variants:
+                out.append((n, f, v) if v else (n, f))
     return out
 
 
@@ -681,8 +989,17 @@ def run(ctx):
     all6 = all5 + ["mixed"]
     nfiles = [0]
 
+    timing = []
+
     def phase(name, fn, cases, chunk, mkargs):
         """One bound = one pmap over shards, cut into groups so that the global deadline is honoured between groups."""
+        t0 = time.time()
+        try:
+            return phase_(name, fn, cases, chunk, mkargs)
+        finally:
+            timing.append("%6.1fs %s" % (time.time() - t0, name))
+
+    def phase_(name, fn, cases, chunk, mkargs):
         shards = core.chunks(cases, chunk)
         args = [mkargs(os.path.join(ctx.work, "%s_%d" % (re.sub(r"\W", "", name), i)), i, s) for i, s in enumerate(shards)]
         group = core.NPROC * 3
@@ -727,19 +1044,94 @@ def run(ctx):
     if thorough:
         phase("X n=3 x lf", _shard_X, only3, 100, lambda wd, i, s: (ctx.chibicc, wd, i, s, ["lf"]))
 
+    # =========== family U: universal character names x backslash-newline x column of the continuation line ===========
+    lfcrlf = ["lf", "crlf"]
+    u12_all = family_cases(1, 2, "U", VARIANTS_ALL)
+    u12_paired = family_cases(1, 2, "U", VARIANTS_PAIRED)
+    u12_3 = family_cases(1, 2, "U", VARIANTS_3)
+    u3_paired = family_cases(3, 3, "U", VARIANTS_PAIRED)
+    phase("U: E n<=2 x 5 columns x 4 UCN spellings x %s" % ("{lf,crlf}" if thorough else "lf"), _shard_E, u12_all, 80,
+          lambda wd, i, s: (ctx.chibicc, wd, i, s, lfcrlf if thorough else ["lf"], [], 2, ("lf",)))
+    if not thorough:
+        phase("U: E n<=2 x 5 (column, UCN) pairs x crlf", _shard_E, u12_paired, 80,
+              lambda wd, i, s: (ctx.chibicc, wd, i, s, ["crlf"], [], 2, ("lf",)))
+    if thorough:
+        phase("U: E n=3 x 5 columns x 4 UCN spellings x {lf,crlf+bom}", _shard_E, family_cases(3, 3, "U", VARIANTS_ALL), 120,
+              lambda wd, i, s: (ctx.chibicc, wd, i, s, [], ["lf", "crlf+bom"], 0, ("lf",)))
+        phase("U: E n=4 x (column, UCN) in {(0,u2),(2,U4)} x lf", _shard_E, family_cases(4, 4, "U", [(0, "u2"), (2, "U4")]), 150,
+              lambda wd, i, s: (ctx.chibicc, wd, i, s, [], ["lf"], 0, ("lf",)))
+    else:
+        phase("U: E n=3 x 3 (column, UCN) pairs x lf", _shard_E, family_cases(3, 3, "U", VARIANTS_3), 120,
+              lambda wd, i, s: (ctx.chibicc, wd, i, s, [], ["lf"], 0, ("lf",)))
+    phase("U: D n<=2 x %d (column, UCN) pairs x lf x {lex,parse}" % (5 if thorough else 3), _shard_D, u12_paired if thorough else u12_3, 8,
+          lambda wd, i, s: (ctx.chibicc, wd, i, s, ["lf"], [], 2, ("lex", "parse"), ()))
+    phase("U: S n<=2 x 5 (column, UCN) pairs x lf", _shard_S, u12_paired, 20, lambda wd, i, s: (ctx.chibicc, wd, i, s, ["lf"]))
+    phase("U: X n<=2 x (column 0, UCN U4) x lf", _shard_X, family_cases(1, 2, "U", [(0, "U4")]), 14,
+          lambda wd, i, s: (ctx.chibicc, wd, i, s, ["lf"]))
+    if thorough:
+        phase("U: D n=3 x (column 0, UCN U4) x lf x {lex,parse}", _shard_D, family_cases(3, 3, "U", [(0, "U4")]), 24,
+              lambda wd, i, s: (ctx.chibicc, wd, i, s, [], ["lf"], 0, (), ("lex", "parse")))
+        phase("U: S n=3 x 5 (column, UCN) pairs x lf", _shard_S, u3_paired, 100, lambda wd, i, s: (ctx.chibicc, wd, i, s, ["lf"]))
+        phase("U: X n=3 x (column 0, UCN U4) x lf", _shard_X, family_cases(3, 3, "U", [(0, "U4")]), 100,
+              lambda wd, i, s: (ctx.chibicc, wd, i, s, ["lf"]))
+    # =========== family M: __LINE__/__FILE__ in replacement lists, invocations over 1-4 lines, nested ===========
+    phase("M: E n<=2 x {lf,crlf,crlf+bom}", _shard_E, family_cases(1, 2, "M"), 40,
+          lambda wd, i, s: (ctx.chibicc, wd, i, s, ["lf", "crlf", "crlf+bom"], [], 2, ("lf",)))
+    phase("M: E n=3 x lf", _shard_E, family_cases(3, 3, "M"), 100, lambda wd, i, s: (ctx.chibicc, wd, i, s, [], ["lf"], 0, ("lf",)))
+    phase("M: X n<=2 x lf", _shard_X, family_cases(1, 2, "M"), 10, lambda wd, i, s: (ctx.chibicc, wd, i, s, ["lf"]))
+    if thorough:
+        phase("M: E n=4 x lf", _shard_E, family_cases(4, 4, "M"), 150, lambda wd, i, s: (ctx.chibicc, wd, i, s, [], ["lf"], 0, ("lf",)))
+        phase("M: X n=3 x lf", _shard_X, family_cases(3, 3, "M"), 100, lambda wd, i, s: (ctx.chibicc, wd, i, s, ["lf"]))
+    # =========== family Z: long files, structural bytes on and around the multiples of I/O buffer sizes ===========
+    zencs = ["lf", "crlf", "lf+bom", "crlf+bom"] if thorough else lfcrlf
+    zcomb = [(9, z) for z in zspecs(("comb",), zencs, ("main", "header"), ())]
+    zsingle = [(9, z) for z in zspecs(("single",), zencs, ("main", "header"), (1, 2, 3) if thorough else (1,))]
+    phase("Z: E comb (every multiple of %d up to %d) x features x shifts x {%s} x {main,header}" % (ZPERIOD, ZTOTAL, ",".join(zencs)),
+          _shard_E, zcomb, 2, lambda wd, i, s: (ctx.chibicc, wd, i, s, [], [], 0, ()))
+    phase("Z: E single (B in %s, k in %s) x features x shifts x {%s} x {main,header}" % (list(ZSIZES), "{1,2,3}" if thorough else "{1}", ",".join(zencs)),
+          _shard_E, zsingle, 8, lambda wd, i, s: (ctx.chibicc, wd, i, s, [], [], 0, ()))
+    phase("Z: D comb x {lex,parse} at the probes around %s" % list(ZDIAG_AT), _shard_D, zcomb, 1,
+          lambda wd, i, s: (ctx.chibicc, wd, i, s, [], [], 0, (), ("lex", "parse")))
+    if thorough:
+        phase("Z: D single x {lex,parse}", _shard_D, zsingle, 6, lambda wd, i, s: (ctx.chibicc, wd, i, s, [], [], 0, (), ("lex", "parse")))
+    phase("Z: S comb", _shard_S, zcomb, 2, lambda wd, i, s: (ctx.chibicc, wd, i, s, []))
+    phase("Z: X comb%s" % ("" if thorough else " (in the main file)"), _shard_X, [c for c in zcomb if thorough or c[1][5] == "main"], 2,
+          lambda wd, i, s: (ctx.chibicc, wd, i, s, []))
+    if os.environ.get("VERIF_C18_TIMING"):
+        sys.stderr.write("\n".join(timing) + "\n")
+
     judged = sum(totals.get(k, 0) for k in ("judged_E", "judged_D", "judged_S", "judged_X"))
     nontriv = sum(totals.get(k, 0) for k in ("nontrivial_E", "nontrivial_D", "nontrivial_S")) + totals.get("judged_X", 0)
     ctx.cover(evaluations=judged, distinct_nontrivial=nontriv, forests_enumerated=nfiles[0], bounds_completed=bounds_done,
+              alphabet_main=LEAVES, alphabet_ucn_splice_family=UALPHA + ["inc[...]"],
+              ucn_spellings=sorted(UCNS.values()), continuation_columns=list(COLS),
+              alphabet_macro_body_family=MALPHA + ["inc[...]", "arg[...] over " + " ".join(MARG)],
+              size_family={"buffer_sizes": list(ZSIZES), "comb_period": ZPERIOD, "comb_file_bytes": ZTOTAL, "shifts": list(ZSHIFTS),
+                           "utf8_second_byte_shifts": list(ZU8SHIFTS), "features": {k: list(v) for k, v in ZFEATURES.items()},
+                           "placements": ["main file", "included header"]},
               construct_observable_encoding_classes=len(kinds),
               skipped_undefined=totals.get("skipped_unspecified", 0), oracle_disagreements=totals.get("oracle_disagreements", 0),
               rule="case = (forest of line items, encoding, observable, probe); evaluations = probes judged (observed position compared with "
                    "the model, for __LINE__/__FILE__ only where gcc -E agrees with the model); non-trivial = the probe's expected line is not 1 "
-                   "(E, D, S) or the value went through code generation and execution (X)",
+                   "(E, D, S) or the value went through code generation and execution (X).  Families: MAIN (line items x encodings), "
+                   "U (universal character names in identifier/string/character constant/comments before, between and after backslash-newlines; "
+                   "continuation text at columns 0,1,2,4,8; splice inside the probe), M (__LINE__/__FILE__ in replacement lists of object-like and "
+                   "function-like macros, invocations over 1-4 lines, nested in arguments to depth 2 and through replacement lists), "
+                   "Z (files and included headers up to 2*65536+1024 bytes with CR / LF / backslash / middle of a splice / middle of a UTF-8 "
+                   "character at k*B-1, k*B, k*B+1 for every multiple of B in {512,1024,4096,8192,65536}, LF and CRLF)",
               **{k: v for k, v in totals.items() if k not in ("skipped_unspecified", "oracle_disagreements")})
     if ctx.exhaustive:
         if totals.get("judged_E", 0) < 5000 or totals.get("judged_D", 0) < 2000 or totals.get("judged_S", 0) < 2000 or totals.get("judged_X", 0) < 500:
             raise core.HarnessError("vacuous: %r" % totals)
-        need = {"code", "block-comment", "spliced-head", "spliced-line", "macro-args", "after-macro", "macro-body", "after-#line", "spliced-line+after-#line"}
+        need = {"code", "block-comment", "spliced-head", "spliced-line", "macro-args", "after-macro", "macro-body", "after-#line", "spliced-line+after-#line",
+                "spliced-line+after-ucn", "spliced-probe+after-ucn", "token-before-splice+after-ucn", "spliced-probe", "token-before-splice",
+                "long-file", "long-file-spliced-line"}
+        for k, least in (("judged_E_splice_after_ucn", 5000), ("judged_D_splice_after_ucn", 300), ("judged_S_splice_after_ucn", 200),
+                         ("judged_X_splice_after_ucn", 50), ("judged_E_body_of_multiline_invocation", 1500),
+                         ("judged_X_body_of_multiline_invocation", 80), ("judged_E_long_file", 20000), ("judged_D_long_file", 800),
+                         ("judged_S_long_file", 20000), ("judged_X_long_file", 10000)):
+            if totals.get(k, 0) < least:
+                raise core.HarnessError("vacuous: %s = %d (< %d)" % (k, totals.get(k, 0), least))
         seen = set(k[0] for k in kinds)
         if need - seen:
             raise core.HarnessError("constructs never judged: %s" % sorted(need - seen))
@@ -747,10 +1139,24 @@ def run(ctx):
         raise core.HarnessError("model and gcc disagree on %d probes outside the unspecified class" % totals["oracle_disagreements"])
     if totals.get("unmodelled_S", 0) > totals.get("judged_S", 0):
         raise core.HarnessError("the .loc observer does not find the probe statements any more (%r)" % totals)
-    for f in (full3[5], full3[150], full3[len(full3) // 2], full3[-1]):
+    for f in (full3[150], full3[len(full3) // 2], full3[-1]):
         r = render(f[1], "E")
         ctx.sample({"forest": fstr(f[1]), "files": {k: "\n".join(v) for k, v in r.files.items()},
                     "expected": [(p, i["presfile"], i["pres"]) for p, i in M.expected(encode_all(r, "lf"))]})
+    for case in (family_cases(2, 2, "U", [(2, "U4")])[137], family_cases(3, 3, "M")[-40]):
+        n, f, v = unpack(case)
+        r = render(f, "E", var=v)
+        ctx.sample({"forest": fstr(f, v), "files": {k: "\n".join(x) for k, x in r.files.items()},
+                    "expected": [(p, i["presfile"], i["pres"]) for p, i in M.expected(encode_all(r, "lf"))]})
+    zs = ("Z", "single", "cr", -1, "crlf", "header", 4096, 1)
+    zr = render(zs, "E")
+    ctx.sample({"long_file": fstr(zs), "sizes": {k: len(x) for k, x in zr.raw.items()}, "bytes_4094_4098_of_h1.h": repr(zr.raw["h1.h"][4094:4098]),
+                "probes": zr.npid})
+    ctx.assume("universal character names below U+00A0 and lone surrogates are not generated (invalid in C11); trigraph-like sequences are not "
+               "generated (neither compiler replaces them by default)")
+    ctx.assume("__LINE__ in a replacement list is judged only where the model (line of the macro name of the outermost invocation written in a "
+               "source file) and gcc -E agree; diagnostics and .loc records of tokens from replacement lists are not judged")
+    ctx.assume("directives are not generated inside macro arguments (undefined, C11 6.10.3p11)")
     ctx.assume("lone CR line ends are not generated (the property promises LF and CR LF only)")
     ctx.assume("__LINE__ inside the arguments of a multi-line macro invocation is judged only where the model (own physical line) and gcc -E agree")
     ctx.assume("diagnostics and .loc records may use either the physical or the presumed (file, line) pair; wording of diagnostics is not read")
